@@ -1,4 +1,5 @@
 pub mod alloc;
+pub mod cli;
 pub mod model;
 pub mod runner;
 pub mod sinks;
